@@ -1,6 +1,7 @@
 package verifsim
 
 import (
+	"encoding/asn1"
 	"bytes"
 	"fmt"
 	"runtime"
@@ -37,7 +38,7 @@ func init() {
 		if tier == "thorough" {
 			n = e + 4000
 		}
-		return Plan{Runs: n, Enumerated: e, Exhaustive: tier == "thorough", Level: "fault_enumeration", Rule: "enumerated runs: every truncation point (prefix length 0..len-1) of a valid DER CRL and of its PEM form, delivered on the handshake-time first-load path (all points) and on the provision-file and refresh paths (all points in thorough, every 4th in quick), a fixed list of valid-but-unusual documents, and every TLV header of the DER document x 9 structural edits (tag swaps, length +1/-1, indefinite and giant lengths, element dropped), and 30 PEM framing cases (blank lines at three positions, CR/LF forms, RFC 1421 headers, re-wrapped at 65/66/76 characters, one line, broken or missing armour, padding and NUL inside the body, two blocks, 1 MiB line) x 3 paths (v1, v2 without crlExtensions, no revoked entries, no nextUpdate) on all three paths; further runs: tape-chosen structure-aware mutations (a TLV header's length rewritten to 0x80..0x8f forms / 2^31-1 / 2^63 / beyond the remaining bytes, tag swaps, nesting, random bytes, broken PEM armour, very long lines, hostile authorityKeyIdentifier values) on a tape-chosen path and backend; oracle: no panic or process death, every call returns, allocation of the whole step that parses (including logging and harness bookkeeping, hence the generous constant) <= 64 MiB + 64 x size, with the address space of the run capped at 8 GiB so that a giant allocation kills only that run, a later good delivery is processed; non-trivial = the delivered bytes differ from a valid CRL"}
+		return Plan{Runs: n, Enumerated: e, Exhaustive: tier == "thorough", Level: "fault_enumeration", Rule: "enumerated runs: every truncation point (prefix length 0..len-1) of a valid DER CRL and of its PEM form, delivered on the handshake-time first-load path (all points) and on the provision-file and refresh paths (all points in thorough, every 4th in quick), a fixed list of valid-but-unusual documents, and every TLV header of the DER document x 9 structural edits (tag swaps, length +1/-1, indefinite and giant lengths, element dropped), and 30 PEM framing cases (blank lines at three positions, CR/LF forms, RFC 1421 headers, re-wrapped at 65/66/76 characters, one line, broken or missing armour, padding and NUL inside the body, two blocks, 1 MiB line) x 3 paths, and ~130 signature/hash algorithm identifiers met in the wild and their neighbours (x parameters absent/NULL) in both AlgorithmIdentifier fields (v1, v2 without crlExtensions, no revoked entries, no nextUpdate) on all three paths; further runs: tape-chosen structure-aware mutations (a TLV header's length rewritten to 0x80..0x8f forms / 2^31-1 / 2^63 / beyond the remaining bytes, tag swaps, nesting, random bytes, broken PEM armour, very long lines, hostile authorityKeyIdentifier values) on a tape-chosen path and backend; oracle: no panic or process death, every call returns, allocation of the whole step that parses (including logging and harness bookkeeping, hence the generous constant) <= 64 MiB + 64 x size, with the address space of the run capped at 8 GiB so that a giant allocation kills only that run, a later good delivery is processed; non-trivial = the delivered bytes differ from a valid CRL"}
 	}, Run: runC07})
 }
 
@@ -63,8 +64,38 @@ const c07tlvMax = 72
 var c07structVariants = []string{"tag:=31", "tag:=04", "tag:=30", "len+1", "len-1", "len:=80", "len:=847fffffff", "len:=8410000000", "drop"}
 
 func c07enumCount(tier string) int {
-	return c07truncCount(tier) + c07tlvMax*len(c07structVariants) + len(c07pemCases)*3
+	return c07truncCount(tier) + c07tlvMax*len(c07structVariants) + len(c07pemCases)*3 + 2*len(c07algOIDs)
 }
+
+// c07algOIDs: signature- and hash-algorithm identifiers met in the wild (supported or not) and their neighbours. The
+// outer signatureAlgorithm is not covered by the signature, so whoever answers for a CRL location chooses it freely:
+// every one of them must lead to a verdict or an error, whatever table the reader looks it up in.
+var c07algOIDs = func() (out []asn1.ObjectIdentifier) {
+	fam := func(prefix []int, from, to int) {
+		for i := from; i <= to; i++ {
+			out = append(out, append(append(asn1.ObjectIdentifier(nil), prefix...), i))
+		}
+	}
+	fam([]int{1, 2, 840, 113549, 1, 1}, 1, 20)      // PKCS#1: rsaEncryption, md2/md4/md5/sha*WithRSA, PSS, sha512-224/256
+	fam([]int{1, 2, 840, 10045, 4}, 1, 3)            // ecdsa-with-SHA1 / Recommended / Specified
+	fam([]int{1, 2, 840, 10045, 4, 3}, 1, 6)         // ecdsa-with-SHA2
+	fam([]int{1, 3, 14, 3, 2}, 2, 29)                // OIW: md4WithRSA, md5WithRSA, dsaWithSHA, sha1, sha1WithRSA ...
+	fam([]int{1, 3, 36, 3, 3, 1}, 1, 4)              // TeleTrusT rsaSignatureWithripemd160/128/256
+	fam([]int{1, 3, 36, 3, 3, 2}, 1, 8)              // TeleTrusT ecSign*
+	fam([]int{1, 3, 36, 3, 2}, 1, 3)                 // ripemd160/128/256
+	fam([]int{2, 16, 840, 1, 101, 3, 4, 3}, 1, 16)   // NIST: dsa-with-sha2, ecdsa/rsa with SHA-3
+	fam([]int{2, 16, 840, 1, 101, 3, 4, 2}, 1, 12)   // NIST hashes sha2, sha3, shake
+	fam([]int{1, 2, 840, 10040, 4}, 1, 3)            // DSA
+	fam([]int{1, 3, 101}, 110, 113)                  // X25519, X448, Ed25519, Ed448
+	fam([]int{1, 2, 643, 2, 2}, 3, 4)                // GOST R 34.10-2001
+	fam([]int{1, 2, 643, 7, 1, 1, 3}, 2, 3)          // GOST R 34.10-2012
+	fam([]int{1, 2, 156, 10197, 1}, 501, 504)        // SM2 with SM3 ...
+	fam([]int{1, 2, 840, 113549, 2}, 2, 5)           // md2, md4, md5
+	fam([]int{1, 3, 6, 1, 4, 1, 11591, 15}, 1, 1)    // Ed25519 (GnuPG arc)
+	fam([]int{1, 3, 6, 1, 4, 1, 1722, 12, 2, 1}, 5, 16) // BLAKE2b
+	fam([]int{2, 999}, 1, 2)                         // example arc
+	return
+}()
 
 // c07pemCases: PEM framing, enumerated (each on all three intake paths).
 var c07pemCases = []string{"broken-begin", "no-end", "no-trailing-newline", "1MiB-line", "blank-lines", "non-base64-line", "only-header-and-long-line",
@@ -279,7 +310,16 @@ func runC07(h *Harness) {
 		}, "refresh"},
 	}
 	done := false
-	if pemBase := c07truncCount(h.Tier) + c07tlvMax*len(c07structVariants); idx >= pemBase && idx < enum {
+	if algBase := c07truncCount(h.Tier) + c07tlvMax*len(c07structVariants) + len(c07pemCases)*3; idx >= algBase && idx < enum {
+		j := idx - algBase
+		oid := c07algOIDs[j/2]
+		s := *derDoc
+		s.AlgOID, s.AlgParams = oid, j%2
+		body, desc = s.Build().Bytes, fmt.Sprintf("algorithm OID %s params=%s", oid, []string{"absent", "NULL"}[j%2])
+		path = c07paths[(j/2)%3]
+		backend = []string{"memory", "disk"}[h.Idx%2]
+		done = true
+	} else if pemBase := c07truncCount(h.Tier) + c07tlvMax*len(c07structVariants); idx >= pemBase && idx < enum {
 		j := idx - pemBase
 		k := c07pemCases[j%len(c07pemCases)]
 		path = c07paths[j/len(c07pemCases)]
